@@ -179,6 +179,8 @@ DORMANT = {
     "dormant_emacro_unbound_variable": ("defe", "unused9", [], ("var", "zz")),
     "dormant_label_like_outer": ("defi", "unused10", [], [("label", "start"), ("op", "jumpdest", None)]),
 }
+# user labels spelled like names an expansion of `guard` (local label `chk`) could be given: ordinary labels
+MANGLED_LIKE = [f"guard_chk_{k}" for k in list(range(0, 14)) + ["00", "x", ""]]
 
 
 def oracle(c, ans):
@@ -214,6 +216,14 @@ def check(run):
             p = base_program(rng)
             p.insert(rng.randrange(0, len(p) + 1), d)
             cases.append(mk_case(p, name, expect=None, nfaults=0))
+    for name in MANGLED_LIKE:
+        p = base_program(rng)
+        at = next(i for i, o in enumerate(p) if o == ("label", "end"))
+        p[at:at] = [("label", name), ("op", "jumpdest", None), ("op", "push2", ("lbl", name))]
+        cases.append(mk_case(p, "label-spelled-like-a-mangled-one", expect=None, nfaults=0))
+        p = base_program(rng)
+        p.insert(next(i for i, o in enumerate(p) if o == ("label", "end")), ("op", "push2", ("lbl", name)))
+        cases.append(mk_case(p, "undeclared-label-spelled-like-a-mangled-one", expect=("UndeclaredLabels", name), nfaults=1))
     for f in FAULTS:
         for _ in range(reps):
             p, exp = inject(rng, base_program(rng), f)
@@ -225,5 +235,5 @@ def check(run):
         p, e2 = inject(rng, p, f2)
         cases.append(mk_case(p, f"{f1}+{f2}", expect=e1, nfaults=2))
     return asmfam.run_family(run, "C13", cases, oracle,
-                             "a well-formed base program (backward+forward reference in one operand, instruction macro with local label and parameter, expression macro, definitions before or after use) with 0, 1 or 2 injected faults out of 33 kinds (incl. surplus arguments, out-of-range %push inside and outside macros, an undeclared label argument spelled like a macro-local label) at a random position; 10 kinds of DORMANT faults (inside macros that are never invoked or used: still well formed); oracle: well-formed => ok, one fault => the matching error kind naming the offender; distinct = distinct sources",
+                             "a well-formed base program (backward+forward reference in one operand, instruction macro with local label and parameter, expression macro, definitions before or after use) with 0, 1 or 2 injected faults out of 33 kinds (incl. surplus arguments, out-of-range %push inside and outside macros, an undeclared label argument spelled like a macro-local label) at a random position; 10 kinds of DORMANT faults (inside macros that are never invoked or used: still well formed); declared / undeclared user labels spelled like mangled macro-local names; oracle: well-formed => ok, one fault => the matching error kind naming the offender; distinct = distinct sources",
                              "well-formedness and error kinds")
